@@ -61,16 +61,31 @@ structure Aligner where
   /-- `nil` (every lookup fails) when the two alphabets are incompatible; *kept* by `SetScore` -/
   chartopos : Option (List (Byte × Nat))
 
+/-- `inAlphabet` of the alphabet repair: every upper-cased residue has an entry in the index map -/
+def inMatrixAlphabet (tbl : List (Byte × Nat)) (s : Seq) : Bool :=
+  s.all fun c => (lookup (toUpper c) tbl).isSome
+
 /-- `NewPwAligner`: matrix and index map by the detected alphabets of the two sequences, default
-scores `gapopen = -10`, `gapextend = -0.5`, `match = 1`, `mismatch = -1` -/
-def newPwAligner (den : Int) (s1 s2 : Seq) : Aligner :=
+scores `gapopen = -10`, `gapextend = -0.5`, `match = 1`, `mismatch = -1`.
+
+`alphaFixed = false` — as shipped: DNAfull whenever `DetectAlphabet` finds both sequences
+nucleotide-compatible (its character class includes `*`, `?`, `-`, `.`, `O`, none of which the DNA
+index map knows: a protein pair made of letters that are also IUPAC codes plus a stop `*` is sent
+to the DNA matrix and then rejected);
+`alphaFixed = true` — with `proposed_fixes/c09-aligner-alphabet.diff`: DNAfull when every residue of
+both sequences is in the DNA index map, else BLOSUM62 when every residue is in the protein map. -/
+def newPwAligner (den : Int) (s1 s2 : Seq) (alphaFixed : Bool := false) : Aligner :=
   let a1 := detectAlphabetSeq s1
   let a2 := detectAlphabetSeq s2
   let nt (a : Nat) := a == NUCLEOTIDS || a == BOTH
   let aa (a : Nat) := a == AMINOACIDS || a == BOTH
+  let isDna := if alphaFixed then inMatrixAlphabet Gen.dna_to_matrix_pos s1 && inMatrixAlphabet Gen.dna_to_matrix_pos s2
+    else nt a1 && nt a2
+  let isProt := if alphaFixed then inMatrixAlphabet Gen.prot_to_matrix_pos s1 && inMatrixAlphabet Gen.prot_to_matrix_pos s2
+    else aa a1 && aa a2
   let (mat, pos) :=
-    if nt a1 && nt a2 then (some Gen.dnafull_subst_matrix, some Gen.dna_to_matrix_pos)
-    else if aa a1 && aa a2 then (some Gen.blosum62_subst_matrix, some Gen.prot_to_matrix_pos)
+    if isDna then (some Gen.dnafull_subst_matrix, some Gen.dna_to_matrix_pos)
+    else if isProt then (some Gen.blosum62_subst_matrix, some Gen.prot_to_matrix_pos)
     else (none, none)
   { den := den, gapopen := -10 * den, gapextend := -(den / 2), matchS := den, mismatch := -den,
     submatrix := mat, chartopos := pos }
@@ -345,8 +360,9 @@ def align (a : Aligner) (fixed : Bool) (s1 s2 : Seq) : Outcome :=
 
 /-- how `cmd/sw.go` (and the harness) configure the aligner: gap setters when given, `SetScore`
 when match/mismatch are given -/
-def configure (den : Int) (s1 s2 : Seq) (gopen gext : Option Int) (mm : Option (Int × Int)) : Aligner :=
-  let a := newPwAligner den s1 s2
+def configure (den : Int) (s1 s2 : Seq) (gopen gext : Option Int) (mm : Option (Int × Int))
+    (alphaFixed : Bool := false) : Aligner :=
+  let a := newPwAligner den s1 s2 alphaFixed
   let a := match gopen with | some g => a.setGapOpenScore g | none => a
   let a := match gext with | some g => a.setGapExtendScore g | none => a
   match mm with
